@@ -1,5 +1,6 @@
 (* Dispatch entries for the emitter model (Graph/Steps.v, Graph/Emit.v). *)
-From BFG Require Import Base.Chars Base.Sx Make.MakeSem Graph.Steps Graph.Emit Graph.EmitSem Graph.StampSem.
+From BFG Require Import Base.Chars Base.Sx Make.MakeSem Graph.Steps Graph.Emit Graph.EmitSem Graph.StampSem
+  Graph.EmitStamp.
 From Coq Require Import String.
 Local Open Scope N_scope.
 
@@ -40,30 +41,44 @@ Definition un_script (x : sx) : script :=
 Definition un_cmdnodes (x : sx) : list (N * bool) :=
   List.map (fun p => (un_N (nth_sx 0 p), un_bool (nth_sx 1 p))) (un_list x).
 
-(* xrule: [target; prereqs; order-only; recipe; phony; also] *)
+(* xrule: [target; prereqs; order-only; recipe (0 none, 1 real, 2 the no-op); phony; also; lag] *)
+Definition un_rkind (x : sx) : rkind := match un_N x with 0 => RNone | 1 => RReal | _ => RNoop end.
+Definition sx_rkind (k : rkind) : sx := A (match k with RNone => 0 | RReal => 1 | RNoop => 2 end).
 Definition un_xrule (x : sx) : xrule :=
-  mkX (un_N (nth_sx 0 x)) (un_Ns (nth_sx 1 x)) (un_Ns (nth_sx 2 x)) (un_bool (nth_sx 3 x)) (un_bool (nth_sx 4 x))
-      (un_Ns (nth_sx 5 x)).
+  mkX (un_N (nth_sx 0 x)) (un_Ns (nth_sx 1 x)) (un_Ns (nth_sx 2 x)) (un_rkind (nth_sx 3 x)) (un_bool (nth_sx 4 x))
+      (un_Ns (nth_sx 5 x)) (un_N (nth_sx 6 x)).
+Definition sx_xrule (r : xrule) : sx :=
+  L [A (x_target r); sx_list A (x_prereqs r); sx_list A (x_order r); sx_rkind (x_recipe r); sx_bool (x_phony r);
+     sx_list A (x_also r); A (x_lag r)].
 Definition un_fsl (x : sx) : fs := fs_of (List.map (fun e => (un_N (nth_sx 0 e), un_N (nth_sx 1 e))) (un_list x)).
 
 Definition table : list (string * (sx -> sx)) := [
-  (* [rules; goals; fs; clk; ops]  ops: [0; 0] = make, [1; f] = touch f, [2; f] = delete f *)
+  (* [rules; goals; fs; clk; ops]  ops: [0; 0] = make, [1; f] = touch f, [2; f] = delete f
+     -> per make: [steps run; targets whose no-op recipe ran; failed] *)
   ("stamp.session", fun a =>
-     sx_list (fun r => L [sx_list A (fst r); sx_bool (snd r)])
+     sx_list (fun r => L [sx_list A (fst (fst r)); sx_list A (snd (fst r)); sx_bool (snd r)])
        (run_session (List.map un_xrule (un_list (nth_sx 0 a))) (un_Ns (nth_sx 1 a)) (un_fsl (nth_sx 2 a))
                     (un_N (nth_sx 3 a))
                     (List.map (fun o => (un_N (nth_sx 0 o), un_N (nth_sx 1 o))) (un_list (nth_sx 4 a)))));
-  (* [steps; x] -> [simple for each step; script_down x steps] *)
+  (* [steps; x] -> [simple for each step; script_down x steps; multi for each step; step_target of the steps that re-run] *)
   ("emit.script_down", fun a =>
      let steps := List.map un_step (un_list (nth_sx 0 a)) in
-     L [sx_list sx_bool (List.map simple steps); sx_list A (script_down (un_N (nth_sx 1 a)) steps)]);
-  ("emit.make_step", fun a => sx_opt (sx_list sx_mrule) (emit_make_step (un_step (nth_sx 0 a))));
+     L [sx_list sx_bool (List.map simple steps); sx_list A (script_down (un_N (nth_sx 1 a)) steps);
+        sx_list sx_bool (List.map multi steps);
+        sx_list A (List.map step_target (script_down_steps (un_N (nth_sx 1 a)) steps))]);
+  (* [fx; lag; steps] -> [rules of the walk semantics; goals] *)
+  ("emit.xsem", fun a =>
+     let steps := List.map un_step (un_list (nth_sx 2 a)) in
+     L [sx_list sx_xrule (xsem_steps (un_bool (nth_sx 0 a)) (un_N (nth_sx 1 a)) steps); sx_list A (script_goals steps)]);
+  (* [fx; step]: fx = the variant of multitarget_rule found in the tree under test *)
+  ("emit.make_step", fun a =>
+     sx_opt (sx_list sx_mrule) (emit_make_step (un_bool (nth_sx 0 a)) (un_step (nth_sx 1 a))));
   ("emit.ninja_step", fun a =>
      let r := emit_ninja_step (un_bool (nth_sx 0 a)) (un_step (nth_sx 1 a)) in
      L [sx_list sx_nbuild (fst r); sx_bool (snd r)]);
   ("emit.step_info", fun a =>
      let st := un_step (nth_sx 0 a) in L [sx_bool (shape_ok st); sx_list A (consumed st)]);
-  ("emit.make", fun a => sx_opt (sx_list sx_mrule) (emit_make (un_script (nth_sx 0 a))));
+  ("emit.make", fun a => sx_opt (sx_list sx_mrule) (emit_make (un_bool (nth_sx 0 a)) (un_script (nth_sx 1 a))));
   ("emit.ninja", fun a => sx_list sx_nbuild (emit_ninja (un_script (nth_sx 0 a))));
   ("emit.command_extra_deps", fun a =>
      sx_list A (command_extra_deps (un_bool (nth_sx 0 a)) (un_cmdnodes (nth_sx 1 a)) (un_Ns (nth_sx 2 a))));
